@@ -340,6 +340,17 @@ Proof.
     cbn [firstn concat]. eapply img_eq_trans; [exact Himg|apply view_nil_eq].
 Qed.
 
+Lemma inv_fail_st s c : inv s -> inv (fail_st data s c).
+Proof.
+  intros H. unfold fail_st.
+  assert (H2 : inv (match ls_mark data s with
+                    | None => set_mark data (set_wlock data (set_pc data s Idle) false) (acquire data s)
+                    | Some _ => set_wlock data (set_pc data s Idle) false
+                    end)).
+  { destruct (ls_mark data s); [|apply inv_set_mark]; apply inv_set_wlock, inv_set_pc; exact H. }
+  destruct (c && fail_clears (pc data s)); [apply inv_set_ss|]; exact H2.
+Qed.
+
 (** ** every step preserves the invariant *)
 Theorem inv_step s l s' : inv s -> label_ok s l -> step s l = Some s' -> inv s'.
 Proof.
@@ -420,6 +431,15 @@ Proof.
     destruct (snap_idx data (txs data s) we); [|discriminate].
     inversion E; subst. apply inv_add_snap, inv_set_snap. exact H.
   - destruct (pc data s); try discriminate. inversion E; subst. apply inv_set_pc. exact H.
+  - (* LsPostSync *)
+    destruct (pc data s); try discriminate.
+    destruct (needs_post postcopy m rb); [|discriminate].
+    destruct (do_sync data lock freshrule reachrule (strict_ss data s) k) eqn:Ed; [|discriminate].
+    inversion E; subst. apply inv_set_pc. unfold merge_reached. apply inv_set_ss.
+    eapply inv_do_sync; [|exact Ed]. unfold strict_ss. apply inv_set_ss. exact H.
+  - (* LsFail *)
+    destruct (in_call (pc data s) && opened data s); [|discriminate]. inversion E; subst.
+    apply inv_fail_st. exact H.
 Qed.
 
 Lemma init_inv s : init_ok data zero lock s -> inv s.
